@@ -45,7 +45,7 @@ def run(ctx):
               "memcpy.  dump -> load -> compare every layer's configuration with the values passed in, every stored scalar BITWISE through the "
               "get_backend() chain, second dump byte-identical, stream consumed exactly; every dump is also parsed by the independent Python "
               "reader of the nested grammar.  Plus arrays with a narrow INDEX type (uint8/uint16/unsigned/int) at lengths up to and including "
-              "the full index range (256, 65536) with random bit patterns.  non-trivial: round holding >= 1 special bit pattern (or a storage-free stack); distinct = hash of "
+              "the full index range (256, 65536) with random bit patterns.  Plus fields WITHOUT cells: a zero extent in any position, a zero-length array, default-constructed fields (dump, reload, stream consumed, re-dump and the dump of a copy byte-identical).  non-trivial: round holding >= 1 special bit pattern (or a storage-free stack); distinct = hash of "
               "(stack description, round)"),
         assumptions=["x86-64: scalar copies go through SSE moves which preserve signalling-NaN payloads (checked at -O1 and -O2 by this very run)",
                      "bit patterns are compared with memcmp, never with operator== (NaN)"],
